@@ -59,6 +59,12 @@ def gen_project(r, idx, gen_value, sandbox="no"):
         "lib": {"vars": vars_(), "has_checkout": r.random() < 0.3},
         "tool_libs": r.choice([[], ["lib"], ["lib", "lib/x y"], ["lib/q'q"]]),
     }
+    # a variable that is ONLY weak (root package step): a second run with another value must not create a new variant
+    case["weak_probe"] = sandbox == "no" and r.random() < 0.6
+    if case["weak_probe"]:
+        case["root"]["vars"]["packageWeak"] = sorted(set(case["root"]["vars"]["packageWeak"]) | {"DW"})
+        case["defines"]["DW"] = gen_value(r).replace("\r", "")
+        case["weak_second"] = (gen_value(r).replace("\r", "") or "x") + "2"
     return case
 
 
@@ -169,7 +175,7 @@ def run_project(arg):
         env["HOME"] = home          # Bob reads ~/.config/bob: always an empty directory
         capture = os.path.join(d, "capture.jsonl")
         p = subprocess.run([python, CHILD, repo, d, json.dumps(bob_args(case)), capture], env=env, stdout=subprocess.PIPE,
-                           stderr=subprocess.STDOUT, timeout=600)
+                           stderr=subprocess.STDOUT, stdin=subprocess.DEVNULL, timeout=case.get("timeout", 600))
         res["rc"] = p.returncode
         res["out"] = p.stdout.decode("utf-8", "replace")[-3000:]
         res["home"] = home
@@ -184,6 +190,12 @@ def run_project(arg):
             res["capture"] = []
         res["probes"] = sorted(glob.glob(os.path.join(d, ".wprobe*")) + glob.glob(os.path.join(d, "*", ".wprobe*")) +
                                glob.glob(os.path.join(d, "dev", "*", "*", "*", "workspace", ".wprobe*")))
+        if case.get("weak_probe") and p.returncode == 0:
+            second = dict(case, defines=dict(case["defines"], DW=case["weak_second"]))
+            p2 = subprocess.run([python, CHILD, repo, d, json.dumps(bob_args(second))], env=env, stdout=subprocess.PIPE,
+                                stderr=subprocess.STDOUT, stdin=subprocess.DEVNULL, timeout=case.get("timeout", 600))
+            res["weak_rc"] = p2.returncode
+            res["weak_new_dirs"] = sorted(os.path.relpath(x, d) for x in glob.glob(os.path.join(d, "dev", "*", "*", "[2-9]")))
     except subprocess.TimeoutExpired:
         res["timeout"] = True
     except Exception as e:  # noqa
